@@ -477,7 +477,17 @@ func c16Inner(sc c16Scenario) (vk.Result, error) {
 			if models[u].deleted {
 				return false, nil // writing a field of a deleted user would re-create it as a partial record
 			}
-			store.set(c15UID(u), "ExpiryTime", time.Now().Unix()-10)
+			// any moment before now, as an administrator might write it: ten seconds ago, 0, 1, a negative number
+			exp := time.Now().Unix() - 10
+			switch op.N % 4 {
+			case 1:
+				exp = 0
+			case 2:
+				exp = 1
+			case 3:
+				exp = -5
+			}
+			store.set(c15UID(u), "ExpiryTime", exp)
 			models[u].expired = true
 		case "delete":
 			u := op.U % sc.Users
@@ -583,7 +593,7 @@ func c16Gen(rt *rapid.T) c16Scenario {
 		case k < 95:
 			sc.Ops = append(sc.Ops, c16Op{K: "exhaust", U: rapid.IntRange(0, sc.Users-1).Draw(rt, "xu"), N: rapid.IntRange(0, 1).Draw(rt, "xdir"), Amt: rapid.Int64Range(0, 49).Draw(rt, "xamt")})
 		case k < 97:
-			sc.Ops = append(sc.Ops, c16Op{K: "expire", U: rapid.IntRange(0, sc.Users-1).Draw(rt, "eu")})
+			sc.Ops = append(sc.Ops, c16Op{K: "expire", U: rapid.IntRange(0, sc.Users-1).Draw(rt, "eu"), N: rapid.IntRange(0, 3).Draw(rt, "ev")})
 		default:
 			sc.Ops = append(sc.Ops, c16Op{K: "delete", U: rapid.IntRange(0, sc.Users-1).Draw(rt, "du")})
 		}
